@@ -124,6 +124,14 @@ theorem errchan_deadlock_witness :
       (ErrChan.init { nOk := 0, nFail := 1, cap := 0, drop := false }) = true ∧
     (ErrChan.init { nOk := 0, nFail := 1, cap := 0, drop := false }).cons = .waiting := by decide
 
+/-- in general: with blocking sends, every configuration in which more downloads fail than the channel
+    has room for reaches a state without enabled event in which `Load` has not returned -/
+theorem errchan_deadlock_general (c : ErrChan.Cfg) (hd : c.drop = false) (hlt : c.cap < c.nFail) :
+    ∃ s, ErrChan.Reach c s ∧ ErrChan.stuck c s = true ∧ s.cons = .waiting :=
+  ⟨_, ErrChan.reach_full hd hlt, ErrChan.stuck_full hd hlt, rfl⟩
+
+example : (⟨3, 2, 1, false⟩ : ErrChan.Cfg).cap < (⟨3, 2, 1, false⟩ : ErrChan.Cfg).nFail := by decide
+
 /-- the same with one child directory (capacity 1) and two failing files, after the first send -/
 theorem errchan_deadlock_witness2 :
     (ErrChan.run { nOk := 1, nFail := 2, cap := 1, drop := false }
